@@ -4,7 +4,7 @@ from . import common as C
 from . import gen_text as G
 from . import pipeline as PL
 
-PROP_MODS = ["Oq3.Props.C01", "Oq3.Props.C01Safe", "Oq3.Props.C01Term", "Oq3.Props.C01Work"]
+PROP_MODS = ["Oq3.Props.C01", "Oq3.Props.C01Safe", "Oq3.Props.C01Term", "Oq3.Props.C01Work", "Oq3.Props.C01Work2"]
 
 
 def token_alphabet():
